@@ -170,7 +170,7 @@ class SlotKernel(Kernel):
     tu = TU
     filter = "TSSSlotStorage"
     cls = "TSSSlotStorage"
-    property_ids = ("C05",)
+    property_ids = ("C05", "C04")
     scope = {"lo": 0, "hi": 3}
     inline = ("prepare_delta", "ensure_delta_capacity", "slot_added", "slot_removed", "validate_mutation_time",
               "mutation_result", "reset_delta")
@@ -264,7 +264,7 @@ class SlotKernel(Kernel):
                    "previous value with the delta applied]", self.sl_inv(*self.cur(ctx)), kind="post-normal")
         ctx.oblige("ensures.delta-capacity-tracks-slot-capacity", z3.And(self.added.size(ctx) == self.cur(ctx)[6],
                                                                         self.removed.size(ctx) == self.cur(ctx)[6]), kind="post-normal")
-        ctx.oblige("ensures.window-time=max(old,t)[C04 lazy delta clean-up rolls only on a strictly newer time]",
+        ctx.oblige("ensures.window-time=max(old,t)[C04/C05 lazy delta clean-up rolls only on a strictly newer time]",
                    ctx.store[(self.th.oid, "delta_time_")] == z3.If(self.t > self.dt0, self.t, self.dt0), kind="post-normal")
         ctx.oblige("ensures.concrete-time", self.t != 0, kind="post-normal")
 
